@@ -308,6 +308,12 @@ def run(ctx):
             c["js"] = len(jobs)
             jobs.append(dict(op="solve", game=e, prune=True, limit=10))
             jobs.append(dict(op="solve", game=e, prune=False, limit=10))
+        c["jq"] = None
+        if c["m"] is not None and not c["wf"] and not c["out"] and len(jobs) % 2 == 0:
+            # every other malformed case: three solves through ONE StochasticGame object (a caller that falls back from the
+            # pruned to the unpruned mode after the first refusal); each must be refused again
+            c["jq"] = len(jobs)
+            jobs.append(dict(op="solve_seq", game=e, steps=[[True, False], [False, False], [True, False]], limit=15))
     res = impl.run_cases(jobs, limit=10, tag="c09")
     terms, meta = [], []
     for k, c in enumerate(cases):
@@ -327,6 +333,10 @@ def run(ctx):
             judge(ctx, c, "check_game+init_states", rv)
             judge(ctx, c, "solve(prune_states=True)", rt)
             judge(ctx, c, "solve(prune_states=False)", rf)
+            if c["jq"] is not None:
+                ctx.count("malformed: three solves through one object")
+                for i, st in enumerate(res[c["jq"]].get("steps") or []):
+                    judge(ctx, c, "solve number %d through the same StochasticGame object" % (i + 1), st)
             for r, nm in ((rt, "pruned"), (rf, "unpruned")):
                 if r.get("exc") == "ValueError" and rv.get("exc") == "ValueError" and r["msg"] != rv["msg"]:
                     ctx.corr_break("solve (%s) raised another message than the validation prefix" % nm,
@@ -446,6 +456,10 @@ def replay(ctx, data):
     if wf or out:
         return 0
     ok = all(r.get("exc") == "ValueError" for r in rs[:3])
+    seq = impl.run_cases([dict(op="solve_seq", game=g, steps=[[True, False], [False, False], [True, False]])], tag="c09rs")[0]
+    for i, st in enumerate(seq.get("steps") or []):
+        print("solve number %d through one object ->" % (i + 1), {k: st[k] for k in st if k in ("exc", "msg", "timeout")} or "result")
+        ok = ok and st.get("exc") == "ValueError"
     if v.get("through") == "run_games" or unsized(d):
         c = dict(d=d, rv=rs[0], rule="replay", host="replay", m=None)
         check_batch(ctx, c, rb, dict(game=g))
